@@ -52,19 +52,23 @@ def c12_1(ctx):
     # min / max
     f = ctx.repo.func(PARTS + '.ExpressionByteCodePartWithValidation.get_value')
     rr = [r for r in returns(f) if r.value is not None]
-    if len(rr) != 1 or not isinstance(rr[0].value, ast.Name):
-        raise AnalysisError('WithValidation.get_value: single `return value` expected')
-    v = rr[0].value.id
-    d = reaching_def(ctx, f, v, rr[0])
-    ctx.check(d is not None and unparse(d).startswith('super().get_value('), 'minmax:value-is-expression', f.site(rr[0]), 'the checked value is the expression value', unparse(d) if d is not None else 'reassigned')
-    _guard_pair(ctx, f, rr[0], v, 'self._min', 'self._max', 'minmax', 'self._min', 'self._max')
+    vs = {r.value.id if isinstance(r.value, ast.Name) else None for r in rr}
+    if len(vs) != 1 or None in vs:
+        raise AnalysisError('WithValidation.get_value: every return is expected to return the one checked value')
+    v = vs.pop()
+    for r in rr:
+        d = reaching_def(ctx, f, v, r)
+        ctx.check(d is not None and unparse(d).startswith('super().get_value('), 'minmax:value-is-expression', f.site(r), 'the checked value is the expression value', unparse(d) if d is not None else 'reassigned')
+        _guard_pair(ctx, f, r, v, 'self._min', 'self._max', 'minmax', 'self._min', 'self._max')
     # memory zone
     f = ctx.repo.func(PARTS + '.ExpressionByteCodePartInMemoryZone.get_value')
     rr = [r for r in returns(f) if r.value is not None]
-    v = rr[0].value.id if len(rr) == 1 and isinstance(rr[0].value, ast.Name) else None
-    if v is None:
-        raise AnalysisError('InMemoryZone.get_value: single `return value` expected')
-    _guard_pair(ctx, f, rr[0], v, 'self._memzone.start', 'self._memzone.end', 'zone', 'self._memzone', 'self._memzone')
+    vs = {r.value.id if isinstance(r.value, ast.Name) else None for r in rr}
+    if len(vs) != 1 or None in vs:
+        raise AnalysisError('InMemoryZone.get_value: every return is expected to return the one checked value')
+    v = vs.pop()
+    for r in rr:
+        _guard_pair(ctx, f, r, v, 'self._memzone.start', 'self._memzone.end', 'zone', 'self._memzone', 'self._memzone')
     # enumeration
     f = ctx.repo.func(PARTS + '.ExpressionEnumerationByteCodePart.get_value')
     res = resolver(ctx, f, inline=False)
